@@ -67,6 +67,10 @@ func (e *c15Env) addArgs(which, n int) (uint32, int, int) {
 		return fresh, 6, 6
 	case 2:
 		return e.init.UplinkChannels[1%len(e.init.UplinkChannels)].Frequency, 6, 6
+	case 5:
+		// a fresh frequency in the upper part of the 100 Hz code range (1.5 GHz .. below 2^24 * 100 Hz):
+		// CFList and DLChannelReq carry it; NewChannelReq re-purposes the codes from 1.2 GHz on
+		return 1500000000 + uint32(n)*200000, e.init.CFListMinDR, e.init.CFListMaxDR
 	case 4:
 		// a fresh frequency with an inverted data-rate range (an argument a band may refuse)
 		if e.init.CFListMaxDR > e.init.CFListMinDR {
@@ -370,6 +374,8 @@ func (e *c15Env) checkState(c *engine.Case, b band.Band, path []int) {
 					b2, _ := back.CFList.MarshalBinary()
 					if !bytes.Equal(a, b2) {
 						fail("crosslayer/CFList-roundtrip", "CFList %x decodes back to %x", a, b2)
+					} else if g, w := c15CFListValue(back.CFList), c15CFListValue(cf); g != w {
+						fail("crosslayer/CFList-roundtrip", "CFList %s encodes to %x which decodes back to %s", w, a, g)
 					}
 				}
 			}
@@ -398,7 +404,12 @@ func (e *c15Env) checkState(c *engine.Case, b band.Band, path []int) {
 			if ch.min < 0 || ch.max > 15 {
 				continue
 			}
-			encdec("NewChannelReq", &lorawan.NewChannelReqPayload{ChIndex: uint8(i), Freq: ch.freq, MinDR: uint8(ch.min), MaxDR: uint8(ch.max)}, &lorawan.NewChannelReqPayload{})
+			if ch.freq >= 1200000000 && ch.freq < 2400000000 {
+				// outside NewChannelReq's range in this library (codes from 12000000 on stand for 200 Hz steps)
+				c.Outcome("crosslayer/NewChannelReq/frequency-outside-its-range")
+			} else {
+				encdec("NewChannelReq", &lorawan.NewChannelReqPayload{ChIndex: uint8(i), Freq: ch.freq, MinDR: uint8(ch.min), MaxDR: uint8(ch.max)}, &lorawan.NewChannelReqPayload{})
+			}
 			encdec("DLChannelReq", &lorawan.DLChannelReqPayload{ChIndex: uint8(i), Freq: m.down[i].freq}, &lorawan.DLChannelReqPayload{})
 		}
 	}
@@ -412,6 +423,19 @@ func (e *c15Env) checkState(c *engine.Case, b band.Band, path []int) {
 		}
 	}
 	c.Outcome(fmt.Sprintf("state/custom-channels=%d", len(cus)))
+}
+
+// c15CFListValue prints what a CFList says: the channel frequencies, or the channel masks without
+// trailing all-false masks (the wire form has no mask count; absent and all-false say the same).
+func c15CFListValue(cf *lorawan.CFList) string {
+	if p, ok := cf.Payload.(*lorawan.CFListChannelMaskPayload); ok {
+		masks := p.ChannelMasks
+		for len(masks) > 0 && masks[len(masks)-1] == (lorawan.ChMask{}) {
+			masks = masks[:len(masks)-1]
+		}
+		return fmt.Sprintf("type %d masks %v", cf.CFListType, masks)
+	}
+	return deepPrint(cf)
 }
 
 func (e *c15Env) pathNames(path []int) []string {
@@ -434,7 +458,7 @@ func (e *c15Env) pathNames(path []int) []string {
 }
 
 func runC15(r *engine.Run) {
-	r.Rule = "E2 explicit-state breadth-first search per band (14 names) from the constructor state over AddChannel with five argument kinds {fresh frequency with the CFList DR range, fresh frequency 6..6, an existing standard frequency 6..6, frequency 0 (placeholder) 0..5, fresh frequency with an inverted DR range (accepted or refused, as the band chooses: a refused call changes nothing)} and Disable/Enable with index in {-1, 0, last standard, first custom, n-1, n} (fixed plans: {-1,0,7,8,15,16,63,64,71,72,95,96}); depth quick 4 / thorough 6 (fixed plans 3); canonical state = hook snapshot of both channel slices; successor = replay of the shortest path on a fresh instance + one op. The reference model (a Go slice of {freq,min,max,enabled,custom}) is stepped in lock-step: after every transition the op's error/no-error and the snapshot must equal the model; in every distinct state all observers are compared with the model (index sets and partitions, accessors with invalid indices, lookups by frequency and frequency+DR - also for the 32 single-bit neighbours of the first and last channel frequency -, GetCFList for 7 versions) and every frequency/DR/CFList the band produces is fed to the MAC encoders (RXParamSetupReq, NewChannelReq, DLChannelReq, PingSlotChannelReq, BeaconFreqReq, CFList in a join-accept) and decoded back."
+	r.Rule = "E2 explicit-state breadth-first search per band (14 names) from the constructor state over AddChannel with six argument kinds {fresh frequency with the CFList DR range, fresh frequency from 1.5 GHz up (the upper part of the 100 Hz code range) with the CFList DR range, fresh frequency 6..6, an existing standard frequency 6..6, frequency 0 (placeholder) 0..5, fresh frequency with an inverted DR range (accepted or refused, as the band chooses: a refused call changes nothing)} and Disable/Enable with index in {-1, 0, last standard, first custom, n-1, n} (fixed plans: {-1,0,7,8,15,16,63,64,71,72,95,96}); depth quick 4 / thorough 6 (fixed plans 3); canonical state = hook snapshot of both channel slices; successor = replay of the shortest path on a fresh instance + one op. The reference model (a Go slice of {freq,min,max,enabled,custom}) is stepped in lock-step: after every transition the op's error/no-error and the snapshot must equal the model; in every distinct state all observers are compared with the model (index sets and partitions, accessors with invalid indices, lookups by frequency and frequency+DR - also for the 32 single-bit neighbours of the first and last channel frequency -, GetCFList for 7 versions) and every frequency/DR/CFList the band produces is fed to the MAC encoders (RXParamSetupReq, NewChannelReq, DLChannelReq, PingSlotChannelReq, BeaconFreqReq, CFList in a join-accept) and decoded back."
 	bandConstructionStability(r)
 	r.Assume("canonical state = both channel slices: every band method reads only these plus tables that are immutable after construction (argued in DESIGN.md A.2), so equal snapshots have equal futures")
 	r.Assume("a custom channel with frequency 0 placed first makes the library offer no CFList at all; the property does not define that case: recorded, not judged")
@@ -448,7 +472,7 @@ func runC15(r *engine.Run) {
 			depth = 6
 		}
 		if env.init.SupportsExtraChannels {
-			for w := 0; w < 5; w++ {
+			for w := 0; w < 6; w++ {
 				env.ops = append(env.ops, c15Op{name: fmt.Sprintf("Add#%d", w), kind: "add", which: w})
 			}
 			// whether AddChannel takes an inverted data-rate range is the band's choice; what the
